@@ -346,7 +346,11 @@ impl GlobalCollector {
         }
 
         for DropCollect { collect_id } in self.drop_collects.drain(..) {
-            self.active_collectors.remove(&collect_id);
+            // Without `cancelable` the trace's spans have been (and will be) reported as they
+            // arrive, so cancelling must not throw away what is parked for them.
+            if self.config.cancelable {
+                self.active_collectors.remove(&collect_id);
+            }
         }
 
         for SubmitSpans {
